@@ -602,7 +602,7 @@ def run(ctx, prop):
         c = next((x for x in good if x.op == k), None)
         if c is None or oracle(c) is None:
             ctx.notes.append(f"known finding {fid} did not reproduce on this tree")
-    if len(good) < max(3, len(cases) // 2):
+    if cases and len(good) * 2 < len(cases):
         ctx.violation("correspondence", "harness could not drive most schedules (see notes)",
                       signature={"kind": "harness-unusable"}, replay={"notes": ctx.notes[:5]}, no_input=True)
     if not proofs_ok:
